@@ -32,6 +32,10 @@ nt = sum(1 for r in rows if r[5] in ('quick',))
 nth = sum(1 for r in rows if r[5] in ('quick', 'thorough'))
 out.append("")
 out.append(f"Totals: {len(rows)} seeds; {nq} raise a violation in at least one quick check; {nt} are caught by the quick check of the very property they were written against, {nth} by its quick or thorough check.")
+out.append("")
+out.append("**False-alarm test.** 15 behaviour-preserving refactorings (`seeded/benign/R*-*`, written by five sub-agents asked for")
+out.append("observably equivalent rewrites of orswot.rs/vclock.rs, map.rs, mvreg.rs + counters, list/glist/identifier/dot, merkle_reg/ctx/serde)")
+out.append("were swept the same way: 15 x 20 quick checks, **no VIOLATION and no machinery error** (`seeded/logs/sweep_quick_benign_*.log`).")
 block = "<!-- SEEDTABLE-BEGIN -->\n" + "\n".join(out) + "\n<!-- SEEDTABLE-END -->"
 p = '/verif/DESIGN.md'; s = open(p).read()
 if 'SEEDTABLE-BEGIN' in s:
